@@ -7061,6 +7061,9 @@ size_t ZSTD_compressSequences(ZSTD_CCtx* cctx,
     }
 
     DEBUGLOG(4, "Final compressed size: %zu", cSize);
+    /* the frame is complete: return to the init stage (and drop the pledged size),
+     * like ZSTD_compress2() and ZSTD_compressStream2() do at the end of a frame */
+    ZSTD_CCtx_reset(cctx, ZSTD_reset_session_only);
     return cSize;
 }
 
